@@ -4,4 +4,5 @@ CONSTANTS
   MaxFields = 2
   MethodLists = "q"
   Exported = {FALSE}
+  Tagged = {FALSE}
 INVARIANTS TypeOK TwinSame GroupingIrrelevant OutputShape Export
